@@ -374,3 +374,79 @@ impl ReqAlphabet {
         ReqAlphabet { methods, paths, versions }
     }
 }
+
+/// Bounds that differ only in build metadata: the reference does not say how they order, but whatever
+/// the order is, registration and dispatch must agree with each other - acceptance does not depend on
+/// the registration order, and on an accepted pair every probe version is served by the same range in
+/// both orders.
+pub fn build_metadata_consistency(ctx: &crate::report::Ctx, evals: &std::sync::atomic::AtomicU64) -> u64 {
+    use crate::report::Violation;
+    use dropshot::ApiEndpointVersions;
+    use serde_json::json;
+    use std::sync::atomic::Ordering;
+    use dropshot::{ApiDescription, ApiEndpoint, HttpError, HttpResponseOk, RequestContext};
+    async fn h(_rq: RequestContext<AppCtx>) -> Result<HttpResponseOk<()>, HttpError> {
+        Ok(HttpResponseOk(()))
+    }
+    let v = |s: &str| semver::Version::parse(s).unwrap();
+    let points = ["2.0.0", "2.0.0+a", "2.0.0+b", "1.0.0+z", "3.0.0"];
+    // (kind, a, b): ApiEndpointVersions is not Clone, so ranges are rebuilt from their description
+    let mut ranges: Vec<(String, (u8, &str, &str))> = vec![];
+    for a in points {
+        ranges.push((format!("from {a}"), (0, a, "")));
+        ranges.push((format!("until {a}"), (1, a, "")));
+        for b in points {
+            if ApiEndpointVersions::from_until(v(a), v(b)).is_ok() {
+                ranges.push((format!("from {a} until {b}"), (2, a, b)));
+            }
+        }
+    }
+    let build = |d: &(u8, &str, &str)| match d.0 {
+        0 => ApiEndpointVersions::from(v(d.1)),
+        1 => ApiEndpointVersions::until(v(d.1)),
+        _ => ApiEndpointVersions::from_until(v(d.1), v(d.2)).unwrap(),
+    };
+    let probes = ["1.0.0", "1.0.0+z", "1.5.0", "2.0.0", "2.0.0+a", "2.0.0+b", "2.0.0+c", "2.0.1", "3.0.0", "3.0.0+q"];
+    let mk = |first: &(u8, &str, &str), second: &(u8, &str, &str)| {
+        let mut api = ApiDescription::<AppCtx>::new();
+        let a = register_one(&mut api, || ApiEndpoint::new("first".to_string(), h, http::Method::GET, "application/json", "/p", build(first)));
+        if !a.accepted() {
+            return (None, false);
+        }
+        let b = register_one(&mut api, || ApiEndpoint::new("second".to_string(), h, http::Method::GET, "application/json", "/p", build(second)));
+        let ok = b.accepted();
+        (if ok { Some(api.into_router()) } else { None }, ok)
+    };
+    let mut n = 0u64;
+    for (n1, r1) in &ranges {
+        for (n2, r2) in &ranges {
+            n += 1;
+            evals.fetch_add(1, Ordering::Relaxed);
+            let (t12, ok12) = mk(r1, r2);
+            let (t21, ok21) = mk(r2, r1);
+            let case = json!({"kind":"build_metadata_pair","first": n1, "second": n2});
+            if ok12 != ok21 {
+                ctx.report(Violation { sig: json!({"kind":"overlap_verdict_depends_on_order","build_metadata": true}), case, expected: json!("the same verdict in both registration orders"), observed: json!({"first_then_second_accepted": ok12, "second_then_first_accepted": ok21}) });
+                continue;
+            }
+            if let (Some(t12), Some(t21)) = (t12, t21) {
+                for p in probes {
+                    let pv = v(p);
+                    let o12 = lookup(&t12, &http::Method::GET, "/p", Some(&pv));
+                    let o21 = lookup(&t21, &http::Method::GET, "/p", Some(&pv));
+                    // "first" in one table is "second" in the other
+                    let name = |o: &Obs, swap: bool| match o {
+                        Obs::Ok { op, .. } => Some(if (op == "first") != swap { n1.clone() } else { n2.clone() }),
+                        _ => None,
+                    };
+                    if name(&o12, false) != name(&o21, true) {
+                        ctx.report(Violation { sig: json!({"kind":"dispatch_depends_on_registration_order","build_metadata": true}), case: case.clone(), expected: json!("the same range serves the version in both registration orders"), observed: json!({"version": p, "first_then_second": name(&o12, false), "second_then_first": name(&o21, true)}) });
+                        break;
+                    }
+                }
+            }
+        }
+    }
+    n
+}
+
